@@ -215,6 +215,21 @@ package lua
 //@ ensures  "insert": old(nargs(L) >= 3) ==> forall n int :: old(isListLen(argTab(L, 1), n) && 1 <= f2i(num(arg(L, 2))) && f2i(num(arg(L, 2))) <= n + 1) ==> argTab(L, 1).array[old(f2i(num(arg(L, 2)))) - 1] == old(arg(L, 3)) && (forall k int :: 0 <= k && k < old(f2i(num(arg(L, 2)))) - 1 ==> argTab(L, 1).array[k] == old(argTab(L, 1).array[k])) && (forall k int :: old(f2i(num(arg(L, 2)))) <= k && k <= n ==> argTab(L, 1).array[k] == old(argTab(L, 1).array[k-1])) && (old(arg(L, 3)) != LNil ==> isListLen(argTab(L, 1), n+1))
 //@ modifies type LTable.array, type LTable.dict, type LTable.strdict, type LTable.keys, type LTable.k2i, elems(LValue), type LTable.dict{*}, type LTable.strdict{*}, type LTable.k2i{*}
 
+// table.concat(t [, sep [, i [, j]]]): "returns the string t[i]..sep..t[i+1] ... sep..t[j]": whatever the range and the
+// element types (strings or numbers), what is returned is ONE value and it is a string; the joining itself is
+// stringConcat's (contracts_verif_meta.go). Not proved: which characters (strings are uninterpreted here).
+//@ define regApart(ls *LState) bool = forall t *LTable :: t != nil ==> arrid(t.array) != arrid(ls.reg.array)
+//@ func tableConcat [C18]
+// (proof hint: everything pushed since the call began is a string, and there is at least one such value)
+//@ assert@"L.Push(stringConcat(" top(L) > old(top(L)) && allConv(L, old(top(L)), top(L) - 1) && base(L) + retbottom == old(top(L))
+//@ requires regApart(L) && Inv_gfn(L) && TabsOK(L) && nargs(L) >= 1 && isTab(arg(L, 1)) && Inv_arr(argTab(L, 1)) && Inv_hash(argTab(L, 1)) && regsValid(L)
+//@ requires arrid(argTab(L, 1).array) != arrid(L.reg.array) && arrid(argTab(L, 1).keys) != arrid(L.reg.array)
+//@ ensures  "one-string-result": result == 1 && top(L) > old(top(L)) && isStr(L.reg.array[top(L) - 1]) && base(L) == old(base(L)) && (forall k int :: base(L) <= k && k < old(top(L)) ==> L.reg.array[k] == old(L.reg.array[k]))
+//@ raises when true
+//@ modifies everything
+//@ loop 1 invariant regApart(L) && arrSameOrFresh(L.reg) && Inv_gfn(L) && TabsOK(L) && Disc(L) && base(L) == old(base(L)) && tbl == old(argTab(L, 1)) && Inv_arr(tbl) && 0 <= retbottom && base(L) + retbottom == old(top(L)) && top(L) >= old(top(L)) && (i > j ==> top(L) > old(top(L))) && arrid(tbl.array) != arrid(L.reg.array) && ncalls() == old(ncalls())
+//@ loop 1 invariant (forall k int :: base(L) <= k && k < old(top(L)) ==> L.reg.array[k] == old(L.reg.array[k])) && (forall k int :: base(L) <= k && k < top(L) ==> valOK(L.reg.array[k])) && (forall k int :: old(top(L)) <= k && k < top(L) ==> isStr(L.reg.array[k]))
+
 // table.sort(t [, comp]): the kernel is (a) the slice handed to sort.Sort is exactly the list t[1..n],
 // (b) Swap exchanges two elements and nothing else (so any run of sort.Sort leaves a permutation).
 //@ extern sort.Sort
